@@ -144,6 +144,7 @@ let judge _id (c : cursor) (r : cursor) : bool * string =
       | "z" -> std_op tok OSize
       | "R" ->
         let q = next_pf c in let remove = next_int c <> 0 in
+        if not (pf_okb f q) then failwith "generator produced a reconstruct query outside the preconditions";
         let site = "FasterTrie::reconstruct" in
         let (entries, fs, orders, dump) = (try
             let n = (match int_of_string_opt (next r) with Some i when i >= 0 && i < 100000 -> i | _ -> raise (Garbage "count")) in
@@ -186,6 +187,11 @@ let judge _id (c : cursor) (r : cursor) : bool * string =
            || not (List.for_all2 (fun r1 r2 -> List.length r1 = List.length r2 && List.for_all2 (fun b1 b2 -> ids_of b1 = ids_of b2) r1 r2) mkeys keysS)
         then disagree "reconstruct_state" site "the buckets (with the returned entries put back) are not a permutation of the model's buckets";
         let (ord0, ordv) = (match orders with o0 :: rest -> (o0, rest) | [] -> disagree "reconstruct_state" site "no orders_") in
+        (* hypothesis [orders_ok] of reconstruct_no_UB, checked on what the real shuffles left in orders_ *)
+        let nf = List.length f in
+        if not (List.for_all (fun o -> int_of_nat o < nf) ord0) || List.length ordv <> nf
+           || not (List.for_all2 (fun sz vo -> vo <> [] && List.for_all (fun v -> int_of_nat v < int_of_nat sz) vo) f ordv)
+        then disagree "reconstruct_state" site "orders_ is not a family of in-range, non-empty orders";
         (match ft_reconstruct !t q remove ord0 ordv keysS with
          | Ok ((t', m_entries), m_f) ->
            let show es = str_nats (List.map fst es) in
